@@ -170,9 +170,9 @@ Proof.
   assert (Q2 : QC Pop_r (mkD w []) (g_prepared qname) am0 (mkD w []) (g_prepared qname) RelO qq (answering z negttl rec_iface qname qtype rec_empty)).
   { unfold qq, answering. destruct (qtype =? QTYPE_ANY)%N.
     - apply (answer_any_C reqf apex cls R z Hinv HR Hapex Hclass Pop_r (fun _ _ _ _ _ _ _ _ => I) (fun _ _ _ _ _ _ _ _ => I)
-               (fun _ => I) eq_refl negttl _ _ am0 qname Gq Hz (mkD w []) (g_prepared qname) am0 rec_empty SpA HRel0 eq_refl).
+               (fun _ => I) eq_refl negttl _ _ am0 qname Gq Hz (mkD w []) (g_prepared qname) am0 rec_empty SpA HRel0 eq_refl eq_refl).
     - apply (answer_C reqf apex cls R z Hinv HR Hapex Hclass Pop_r (fun _ _ _ _ _ _ _ _ => I) (fun _ _ _ _ _ _ _ _ => I)
-               (fun _ => I) eq_refl negttl _ _ am0 qname Gq Hz qtype (mkD w []) (g_prepared qname) am0 rec_empty SpA HRel0 eq_refl). }
+               (fun _ => I) eq_refl negttl _ _ am0 qname Gq Hz qtype (mkD w []) (g_prepared qname) am0 rec_empty SpA HRel0 eq_refl eq_refl). }
   clearbody qq.
   destruct qq as [[u w1]|[[|] w1]|]; cbn [QS QC] in Q1, Q2; try contradiction.
   - (* the answering logic succeeded: only Pop_r operations *)
@@ -242,8 +242,9 @@ Theorem respond_w_clause_iv reqf apex cls wide recs z buf tcp id rd qname qtype 
        ResolveRepr.norm_rec r = ResolveS.resolve reqf apex cls (accepted apex cls recs) qname qtype /\
        Forall2 (rr_rel xparts) (map q2a (rc_an r)) (m_an m) /\
        Forall2 (rr_rel xparts) (map q2a (rc_ns r)) (m_ns m) /\
-       exists M X O dsM dsX dsP,
-         map q2a (rc_ar r) = M ++ O /\ Sub X O /\
+       exists M X Oq dsM dsX dsP,
+         map q2a (rc_ar r) = M ++ map q2a Oq /\ Sub X (map q2a Oq) /\
+         Forall (fun q => ~ in_bailiwick (rc_ns r) q) Oq /\
          m_ar m = dsM ++ dsX ++ dsP /\ Forall2 (rr_rel xparts) M dsM /\ Forall2 (rr_rel xparts) X dsX /\
          forallb is_pseudo dsP = true).
 Proof.
